@@ -38,8 +38,9 @@ Inductive link_res := LTarget (raw : bytes) (st : stat_res) | LENOENT | LESRCH |
 Inductive pkind := PRegX | PReg | PDir.
 
 Record pview := {
-  v_pdir : bool;            (* os.path.lexists("/proc/<pid>") *)
-  v_stat : option bool;     (* /proc/<pid>/stat: None = cannot be read / absent; Some z = state is 'Z' *)
+  v_stat : option bool;     (* /proc/<pid>/stat: Some z = readable, z = state is 'Z';
+                               None = lstat()/open() of it fail *)
+  v_stat_denied : bool;     (* ... with EACCES/EPERM (true) rather than ENOENT/ESRCH (false); only read when v_stat = None *)
   v_comm : bytes;           (* name between the parentheses of the stat record *)
   v_cmdline : file_res;
   v_environ : file_res;
@@ -74,7 +75,7 @@ Definition wrap (v : pview) (e : raw_exn) : exn :=
   | RNotFound =>
     if is_zombie v then ZombieProcess
     else match v_stat v with
-         | None => NoSuchProcess        (* not os.path.exists(".../stat") *)
+         | None => NoSuchProcess        (* not os.path.exists(".../stat"): exists() is False for ENOENT and EACCES alike *)
          | Some _ => OSError            (* FileNotFoundError re-raised *)
          end
   end.
@@ -133,6 +134,16 @@ Definition pl_environ (c : cfg) (v : pview) : outcome (list (bytes * bytes)) :=
 (* ------------------------------------------------ readlink() + Process._readlink(path, fallback="") *)
 Definition deleted_sfx : bytes := bs " (deleted)".
 
+(* after ENOENT / ESRCH of readlink(): os.lstat("/proc/<pid>/stat") -- a file INSIDE the
+   directory, not os.path.lexists() of the directory: present -> zombie test, then the
+   fallback ''; refused -> the PermissionError propagates; absent -> the original error is
+   re-raised and wrap_exceptions turns it into NoSuchProcess *)
+Definition probe_stat (v : pview) (e : raw_exn) : outcome bytes :=
+  match v_stat v with
+  | Some z => if z then Exc ZombieProcess else Val []
+  | None => if v_stat_denied v then Exc AccessDenied else Exc (wrap v e)
+  end.
+
 Definition pl_readlink (v : pview) (l : link_res) : outcome bytes :=
   match l with
   | LTarget raw st =>
@@ -145,12 +156,8 @@ Definition pl_readlink (v : pview) (l : link_res) : outcome bytes :=
       end
     else Val p
   | LEACCES => Exc AccessDenied
-  | LENOENT =>
-    if v_pdir v then (if is_zombie v then Exc ZombieProcess else Val [])
-    else Exc (wrap v RNotFound)
-  | LESRCH =>
-    if v_pdir v then (if is_zombie v then Exc ZombieProcess else Val [])
-    else Exc (wrap v RLookup)
+  | LENOENT => probe_stat v RNotFound
+  | LESRCH => probe_stat v RLookup
   end.
 
 Definition pl_exe (v : pview) : outcome bytes := pl_readlink v (v_exe v).
@@ -159,7 +166,7 @@ Definition pl_cwd (v : pview) : outcome bytes := pl_readlink v (v_cwd v).
 (* Process.name (_pslinux): decode(self._parse_stat_file()['name']) *)
 Definition pl_name (v : pview) : outcome bytes :=
   match v_stat v with
-  | None => Exc (wrap v RNotFound)
+  | None => if v_stat_denied v then Exc AccessDenied else Exc (wrap v RNotFound)
   | Some _ => Val (v_comm v)
   end.
 
